@@ -424,7 +424,7 @@ func (r *reader) _readEvent(canary byte) (m Message, err error) {
 	}
 
 	r.log("returning: %v", m)
-	return m, nil
+	return m, err
 }
 
 func (r *reader) readEvent() (m Message, err error) {
